@@ -19,6 +19,8 @@ ops
   strip <script>            codefrom <script> <k>        annexext <wit/wit/…>      redeem <scriptSig> <spk>
   psbt.ecdsa <out|.> <redeem> <wscript> <nwu 0|1> <sht|.> <tx> <i> <ht|.>
   psbt.taproot <sht|.> <tx> <i> <outs> <leafhash> <ht|.> <pre 0|1>
+  spec.legacy <sc> <tx> <i> <ht>      spec.bip143 <sc> <tx> <i> <ht> <amount>      spec.bip341 <tx> <i> <outs> <ht> <annex> <ext>
+      the PREIMAGE BYTES of the specification (Part A), `ok bug` for the legacy SIGHASH_SINGLE constant
 answers: `ok <hex>` / `err value` / `err foreign`; the three digest ops also evaluate the
 specification (Part A) on every accepted line and answer `specdiff …` if it differs.
 -/
@@ -102,6 +104,19 @@ def handleC09 : List String → Option String
     pure <| match pre? pre tx outs with
       | .error e => "err " ++ e.name
       | .ok p => render (Impl.fromTx sha256 hash160 outs tx wits i ht p codesep)
+  | ["spec.legacy", sc, tx, i, ht] => do
+    let sc ← fromHex? sc; let (tx, _) ← parseTx tx; let i ← i.toNat?; let ht ← parseInt? ht
+    pure (if legacySingleBug tx i (Impl.word ht) then "ok bug"
+      else "ok " ++ toHex (legacyPreimage sc tx i (Impl.word ht)))
+  | ["spec.bip143", sc, tx, i, ht, amount] => do
+    let sc ← fromHex? sc; let (tx, _) ← parseTx tx; let i ← i.toNat?; let ht ← parseInt? ht
+    let amount ← parseInt? amount
+    pure ("ok " ++ toHex (bip143Preimage hash256 sc tx i (Impl.word ht) amount))
+  | ["spec.bip341", tx, i, outs, ht, annex, ext] => do
+    let (tx, _) ← parseTx tx; let i ← i.toNat?; let outs ← parseOuts outs; let ht ← ht.toNat?
+    let annex ← fromHex? annex; let ext ← fromHex? ext
+    let e ← tapExt? (if ext.isEmpty then 0 else 1) ext
+    pure ("ok " ++ toHex (bip341Preimage sha256 tx i outs ht (if annex.isEmpty then none else some annex) e))
   | ["strip", s] => do
     let s ← fromHex? s
     pure ("ok " ++ toHex (withoutCodeSeparators s))
